@@ -3,7 +3,7 @@ from orchestrate.common import run_check
 
 
 def _extra(lines, verdicts):
-    faults, classes, tmax, inflight, conns, skipped = {}, {}, 0, {}, 0, 0
+    faults, classes, tmax, inflight, conns, skipped, kills = {}, {}, 0, {}, 0, 0, 0
     for ln in lines:
         try:
             case, obs = ln.split("|", 1)
@@ -12,6 +12,8 @@ def _extra(lines, verdicts):
                 continue
             f = case.split()
             fk = re.sub(r"(?<=garb).*|(?<=ver).*", "", f[5])
+            if fk.startswith("burst"):
+                kills = kills + int(f[6])
             faults[fk] = faults.get(fk, 0) + 1
             b = "1" if f[3] == "1" else "2-4" if int(f[3]) <= 4 else "5-20" if int(f[3]) <= 20 else "21-50"
             inflight[b] = inflight.get(b, 0) + 1
@@ -25,7 +27,8 @@ def _extra(lines, verdicts):
             pass
     return {"fault_kinds": faults, "requests_in_flight": inflight, "client_outcome_classes": classes,
             "max_completion_ms": tmax, "connection_traces_replayed_through_model": conns,
-            "cases_skipped_because_setup_failed_5_times": skipped}
+            "cases_skipped_because_setup_failed_5_times": skipped,
+            "burst_rounds_with_a_kill_while_requests_are_submitted": kills}
 
 
 def _post(lines, verdicts):
@@ -42,7 +45,7 @@ SPEC = {
     "pid": "C10",
     "coq_targets": ["Props/C10.vo", "Extract/ExC10.vo"],
     "bin": "c10",
-    "sizes": {"quick": 600, "thorough": 30000},
+    "sizes": {"quick": 600, "thorough": 25000},
     "search_n": 3000,
     "search_rounds": 2,
     "rule": ("one real Session per case against a fresh mocknode cluster (1-2 nodes, 0/2 shards); n=1..50 requests in flight, "
@@ -50,6 +53,8 @@ SPEC = {
              "0..frame length+1 of a 3-request script, then random), ver<xx> = bad version byte, unsol = frame for a stream nobody "
              "waits on, garb<hex> = raw bytes (unknown opcode, short header, header announcing more body than follows, random), "
              "stall = silent connection with keepalive 150ms/250ms; later requests stay unanswered or are answered late; "
+             "burstrst/burstfin = n client tasks issue j requests each, in 6..12 rounds the mock kills the pool connection(s) of node 0 "
+             "while requests are being submitted (the submit/teardown race of finding F15; a fifth of the cases); "
              "non-trivial = fault != none; distinct = distinct case lines"),
     "nontrivial": lambda ln: " none " not in ln.split("|")[0],
     "extra_coverage": _extra,
